@@ -1,4 +1,4 @@
-import SoxrModel.Lsr.NoCrash
+import SoxrModel.Lsr.Invariant
 import SoxrModel.Conv.LemmasProps
 import SoxrModel.Conv.LemmasLsr
 
@@ -34,8 +34,13 @@ Clauses and theorems
 * outside the contract (why the assumptions are needed)  `invalid_ratio_crashes`, `failed_create_then_reset_crashes`
 
 * no crash with a valid ratio              `no_crash_in_contract` (single call, any engine / callback behaviour)
-Not proved here: `Goal_channels_invariant` (stated below) — that the hypothesis of `no_crash_in_contract` is kept by
-`src_process`; the correspondence compares crash / no crash op by op.
+* its hypothesis is an invariant            `channels_invariant_process` (the former `Goal_channels_invariant`: every oracle, no side
+                                           hypothesis), `channels_invariant_read`, `channels_invariant_set_ratio`;
+                                           **not** kept by `src_reset`: `channels_invariant_reset_violated` (replayed on the real
+                                           code), `channels_invariant_reset_partial`; `live_invariant_step`
+* no crash, every sequence                 `no_crash_every_sequence` (from `src_new` / `src_callback_new`, any in-contract calls incl.
+                                           `src_reset`, no failing `resampler_create`), `no_crash_every_sequence_without_reset`
+                                           (every oracle, failing creates included, no `src_reset`)
 -/
 
 set_option exponentiation.threshold 4096
@@ -269,13 +274,90 @@ theorem no_crash_in_contract (fuel : Nat) (o : Obj) (d : Data) (ratio : D) (olen
 example : ((fresh 3 2 true).error = none → (fresh 3 2 true).chans ≠ 0) ∧ dpos (recip 0x3ff8000000000000) = true := by
   decide +kernel
 
-/-- NOT PROVED (stated): the hypothesis of `no_crash_in_contract` is an invariant of every sequence of in-contract calls
-    from `src_new` during which no `resampler_create` fails (`failed_create_then_reset_crashes` shows what happens
-    otherwise).  The correspondence check compares crash / no crash for every op of every sequence. -/
-def Goal_channels_invariant : Prop :=
-  ∀ (fuel : Nat) (o : Obj) (d : Data) (c c' : Ctx) (o' : Obj) (r : PRes),
-    (o.error = none → o.chans ≠ 0) → srcProcess fuel (some o) (some d) c = .ok (some o', r) c' →
-    (o'.error = none → o'.chans ≠ 0)
+/-! ## the hypothesis of `no_crash_in_contract` as an invariant
+
+Formerly `def Goal_channels_invariant : Prop := ∀ fuel o d c c' o' r, (o.error = none → o.chans ≠ 0) →
+srcProcess fuel (some o) (some d) c = .ok (some o', r) c' → (o'.error = none → o'.chans ≠ 0)` — now
+`channels_invariant_process`; the other entry points, the one that breaks it, and the lift to sequences follow.
+`Inv o` is `o.error = none → o.chans ≠ 0`; `Live o` is `o.chans ≠ 0`; `NoFail toks`: the oracle has no failing
+`resampler_create` (`Lsr/Invariant.lean`). -/
+
+/-- **`src_process` keeps the invariant** — for every oracle (a failing `resampler_create` zeroes the channel count but
+    stores the error), every data block, in contract or not. -/
+theorem channels_invariant_process (fuel : Nat) (o : Obj) (d : Data) (c c' : Ctx) (o' : Obj) (r : PRes)
+    (hi : o.error = none → o.chans ≠ 0) (h : srcProcess fuel (some o) (some d) c = .ok (some o', r) c') :
+    o'.error = none → o'.chans ≠ 0 := by
+  obtain ⟨o2, e, i2⟩ := srcProcess_inv fuel o d hi c c' _ r h
+  cases e; exact i2
+
+example : srcProcess 3 (some (fresh 0 1 false)) (some ⟨0, 10#64, 10#64, false, false, false⟩) ⟨[], [.c false]⟩ =
+    .ok (some (deadObj .engine), ⟨-1, some 0, some 0⟩) ⟨[.close, .create 0x7ff0000000000000 false], []⟩ ∧
+    Inv (deadObj .engine) := ⟨by decide +kernel, fun h => by cases h⟩
+
+/-- `src_callback_read` keeps it (every oracle). -/
+theorem channels_invariant_read (fuel : Nat) (o : Obj) (ratio : D) (olen : BitVec 64) (outNull : Bool) (c c' : Ctx)
+    (o' : Obj) (ret : Int) (hi : Inv o) (h : srcCallbackRead fuel (some o) ratio olen outNull c = .ok (some o', ret) c') :
+    Inv o' := by
+  obtain ⟨o2, e, i2⟩ := srcCallbackRead_inv fuel o ratio olen outNull hi c c' _ ret h
+  cases e; exact i2
+
+/-- `src_set_ratio` keeps it (every oracle, any ratio) and never crashes. -/
+theorem channels_invariant_set_ratio (o : Obj) (ratio : D) (c c' : Ctx) (o' : Obj) (rc : Int) (hi : Inv o)
+    (h : srcSetRatio (some o) ratio c = .ok (some o', rc) c') : Inv o' ∧ ∀ c'', srcSetRatio (some o) ratio c ≠ .crash c'' := by
+  obtain ⟨n1, n2⟩ := srcSetRatio_step o ratio c
+  obtain ⟨o2, e, i2, -⟩ := n2 _ _ _ h
+  cases e; exact ⟨i2 hi, n1⟩
+
+/-- **`src_reset` does not keep it**: the zeroed object a failed `resampler_create` leaves satisfies the invariant (its
+    error is stored); `soxr_clear` drops the error and keeps the zero channel count — and the next `src_process` crashes
+    (`failed_create_then_reset_crashes`).  Replayed on the real code by the check (sequence `fixed-failed-create-reset`:
+    `src_ratio = 2^-32`, finite and positive, is refused by the engine; `src_process` returns -1, `src_reset` 0,
+    `src_error` 0, the next `src_process` dies of SIGSEGV), model and code agreeing op by op. -/
+theorem channels_invariant_reset_violated :
+    Inv (deadObj .engine) ∧
+    srcReset (some (deadObj .engine)) ⟨[], []⟩ = .ok (some { deadObj .engine with error := none }, 0) ⟨[], []⟩ ∧
+    ¬ Inv { deadObj .engine with error := none } := reset_breaks_inv
+
+/-- what `src_reset` does keep: never a crash; from an object that has its channel count the result satisfies the
+    invariant (every oracle) and still has its channel count when no `resampler_create` fails. -/
+theorem channels_invariant_reset_partial (o : Obj) (c c' : Ctx) (o' : Obj) (rc : Int)
+    (h : srcReset (some o) c = .ok (some o', rc) c') :
+    (Live o → Inv o') ∧ (NoFail c.toks → Live o → Live o') ∧ ∀ c'', srcReset (some o) c ≠ .crash c'' := by
+  obtain ⟨n1, n2⟩ := srcReset_step o c
+  obtain ⟨o2, e, i2, l2⟩ := n2 _ _ _ h
+  cases e; exact ⟨i2, l2, n1⟩
+
+example : Live (fresh 2 1 false) ∧ NoFail [.c true, .g 5] :=
+  ⟨by unfold Live; decide, by unfold NoFail; decide⟩
+
+/-- one in-contract call of any kind (with its own oracle, as the driver runs it) from an object satisfying the
+    invariant: no crash; the invariant is kept unless the call is `src_reset`; the channel count is kept when no
+    `resampler_create` fails. -/
+theorem live_invariant_step (fuel : Nat) (o : Obj) (op : Op) (toks : List Tok) (hc : op.inContract) (hi : Inv o) :
+    stepOp fuel o op toks ≠ .crash ∧
+    (∀ o', stepOp fuel o op toks = .ok o' →
+      (op.isReset = false → Inv o') ∧ (NoFail toks → Live o → Live o')) := stepOp_spec fuel o op toks hc hi
+
+/-- **No crash, every sequence**: from the object `src_new` / `src_callback_new` returns (any converter id, any positive
+    channel count), through every sequence of in-contract calls — `src_process` / `src_callback_read` with a valid ratio and
+    any sizes, buffers, `end_of_input`; `src_set_ratio` with any ratio; `src_reset`; `src_error` — with any engine and
+    callback answers, as long as no `resampler_create` fails: no call crashes.  (`no_crash_in_contract` without its
+    hypothesis.) -/
+theorem no_crash_every_sequence (fuel id chans : Nat) (fn : Bool) (hch : chans ≠ 0) (ops : List (Op × List Tok))
+    (hops : ∀ x ∈ ops, x.1.inContract ∧ NoFail x.2) : runOps fuel (fresh id chans fn) ops ≠ .crash :=
+  runOps_no_crash_live fuel (fresh id chans fn) hch ops hops
+
+/-- the same for **every** oracle — `resampler_create` may fail at any point — when the sequence has no `src_reset`. -/
+theorem no_crash_every_sequence_without_reset (fuel id chans : Nat) (fn : Bool) (hch : chans ≠ 0)
+    (ops : List (Op × List Tok)) (hops : ∀ x ∈ ops, x.1.inContract ∧ x.1.isReset = false) :
+    runOps fuel (fresh id chans fn) ops ≠ .crash :=
+  runOps_no_crash_no_reset fuel (fresh id chans fn) (fun _ => hch) ops hops
+
+/-- a sequence that runs: new converter 4, process (engine created, 100 in, 200 out), reset, read-style process again. -/
+example : runOps 3 (fresh 4 1 false)
+    [(.process ⟨0x4000000000000000, 100#64, 300#64, true, false, false⟩, [.c true, .g 200]), (.reset, []),
+     (.setRatio 0x3ff0000000000000, [.c true]), (.error, [])] =
+    .ok { fresh 4 1 false with ioRatio := 0x3ff0000000000000, inited := true } := by decide +kernel
 
 /-! ## the array helpers -/
 
